@@ -590,9 +590,8 @@ namespace mustache {
         void updateComponents(const ComponentIdMask& to_remove, Entity entity, TupleType& tuple,
                               SharedComponentsInfo, const std::index_sequence<_I...>&);
 
-        [[nodiscard]] WorldVersion worldVersion() const noexcept {
-            return world_version_;
-        }
+        // the live version of the world (not the copy taken at the last update()): see entity_manager.cpp
+        [[nodiscard]] WorldVersion worldVersion() const noexcept;
 
         friend Archetype;
         void updateLocation(Entity e, ArchetypeIndex archetype, ArchetypeEntityIndex index) noexcept {
